@@ -450,13 +450,19 @@ def shrink(case):
 PREDICATES = {}
 
 MANIFEST = dict(
-    text=('Proof: C16_contained states for ALL working directories, roots and names that whenever static_file\'s prefix '
-          'test passes, the normalised target\'s components are the normalised root\'s components followed by a '
-          'non-empty list of components none of which is "..", "." or empty (root "/" apart, where the target may be '
-          'the root itself); C16_status states that a failed test gives 403 and failed exists/isfile/access give '
-          '404/403 with no open() call; C16_sibling_prefix_rejected covers the sibling-prefix case.  The model of '
-          'posixpath.join/normpath/abspath and of static_file\'s checks (coq/model/Static.v) is tied to /repo and to '
-          'CPython on every run by real calls over a real directory tree with open() and os.path calls recorded.'),
+    text=('Proof (Coq, all theorems closed under the global context): normpath_normal (every posixpath.normpath result '
+          'is "." or <= 2 slashes followed by clean components joined by single "/", no ".." when absolute); '
+          'C16_contained (for ALL working directories, roots and names: if static_file\'s prefix test passes, the '
+          'normalised target\'s components are the normalised root\'s components followed by a non-empty list of '
+          'components none of which is "..", "." or empty - root "/" apart, where the target may be the root directory '
+          'itself); C16_sibling_prefix_rejected (a target whose component merely starts with the root\'s last component '
+          'is refused); C16_status (failed test => 403, failed exists/isfile => 404, failed access => 403, in all three '
+          'nothing is opened; open() is reached only when every test passed, not for HEAD/304; status always in '
+          '{200,206,304,403,404,416}) and C16_never_opens_outside_root, for arbitrary exists/isfile/access/content '
+          'oracles.  The model of posixpath.join/normpath/abspath and of static_file (coq/model/Static.v, Range.v) is '
+          'tied to /repo and CPython on every run by real calls over a real directory tree (root, siblings sharing the '
+          'prefix, decoys beside and above) with open(), abspath, exists, isfile and access recorded in the module '
+          'namespace; an independent oracle checks realpath containment of everything opened and delivered.'),
     note=('Trusted: Coq kernel + vm_compute; extraction; the Python harness; exists/isfile/access are arbitrary '
           'functions in the theorems.  Not covered: symbolic links inside the root, Windows paths, check/open races.'),
     technique='Coq proof (component-stack invariant of normpath, prefix-of-join lemma) + model/implementation correspondence',
